@@ -3,7 +3,7 @@ from .. import common as C
 from .. import impl, instgen
 from ..engine import Relation
 
-REQ = ['Inst.Instance', 'Text.Import', 'Corr.C10Corr']
+REQ = ['Inst.Instance', 'Text.Import', 'Text.Render', 'Corr.C10Corr']
 
 
 def gen_files(ctx, label, n):
@@ -78,4 +78,44 @@ class Import(Relation):
         return d
 
 
-RELATIONS = [Import()]
+def cplist(groups):
+    return C.clist([C.czlist(g) for g in groups])
+
+
+def cast(ast):
+    na = ast['na']
+    second = C.clist(['(%s, %s, %s)' % (C.cz(lq), C.cz(uq), C.cz(lc if na == 3 else 0)) for lq, uq, lc in ast['projects']])
+    if na == 3:
+        second_lists = '[]'
+        third = C.clist(['(%s, %s, %s, %s)' % (C.cz(lq), C.cz(tg), C.cz(uq), cplist(gs)) for lq, tg, uq, gs in ast['lecturers']])
+    else:
+        second_lists = C.clist([cplist(l[3]) for l in ast['lecturers']])
+        third = '[]'
+    return '(mkAst %s %s %s %s %s %s %s)' % (C.cz(ast['n1']), C.cz(ast['n2']), C.cz(ast['n3'] if na == 3 else 0),
+                                              C.clist([cplist(gs) for gs in ast['first']]), second, second_lists, third)
+
+
+class ImportSpec(Import):
+    name = 'M_import'
+    kind = 'monitor'
+    describe = ('same generator (well-formed abstract files only); the implementation\'s reading of the rendered text '
+                '(arbitrary blanks/tabs, leading zeros, with/without trailer and final newline) must be the instance the '
+                'abstract file denotes by Text/Render.v denote (dense tie-group ranks, 2-agent embedding, ignored second '
+                'side without -twopl), compared in Coq; non-trivial as R_import')
+
+    def cases(self, ctx):
+        for c in gen_files(ctx, self.name, 1500 if ctx.thorough else 240):
+            yield c
+
+    def term(self, inp, obs):
+        enc = impl.cinstance
+        return '(c10_spec %s %s %s %s)' % (C.cz(inp['na']), C.cbool(inp['twopl']), cast(inp['ast']), C.cresult(obs, enc))
+
+    def diag(self, inp, obs):
+        return '(wf_ast %s %s %s, denote %s %s %s)' % ((C.cz(inp['na']), C.cbool(inp['twopl']), cast(inp['ast'])) * 2)
+
+    def what(self, inp, obs):
+        return 'file %r (na=%d twopl=%s) is not read as the instance it denotes' % (inp['text'], inp['na'], inp['twopl'])
+
+
+RELATIONS = [Import(), ImportSpec()]
